@@ -452,6 +452,7 @@ func parseReply(b []byte) (addr string, gen, conn int, ok bool) {
 
 // the first operation initialises the transport; take the "before" snapshot only after that
 func (r *poolRun) before() string {
+	r.e.inflight(map[string]interface{}{"history_so_far": r.replay(), "next": "the next Transport operation of the history"})
 	if !r.firstSnap {
 		return ""
 	}
